@@ -52,7 +52,7 @@ Reduce ==
        ELSE UNCHANGED nvars
   /\ pc' = "rmspecies" /\ Keep /\ UNCHANGED <<core, nph>>
 
-Mentions(S) == {k \in DOMAIN rlist : (IF CmdVariant = "rm_reactants_only" THEN Rs(rlist[k]) ELSE Spc(rlist[k])) \cap S # {}}
+Mentions(S) == UNION {WhereSpecies(c, IF CmdVariant = "rm_reactants_only" THEN "reactant" ELSE "all") : c \in S}   \* net.where_species(spec) per name
 RmSpecies ==
   /\ pc = "rmspecies"
   /\ IF opt.rm THEN RemoveIdxList(Mentions(opt.rmspecies)) ELSE UNCHANGED nvars
